@@ -88,7 +88,7 @@ def gen(rng, layout, m, obj='quad', cons=('lin',), bmode='scalar', mmode='scalar
         d = (0.5 + 1.5 * rng.random(n)) / dx ** 2 * (1 + np.abs(r * dx))
         f0 = dict(kind='quad', d=d.tolist(), t=(xstar - r / d).tolist(), r=float(rng.normal()))
     elif obj == 'quadfull':
-        V = rng.normal(size=(n, 2)) * 0.4
+        V = rng.normal(size=(n, 2)) * 0.4 * min(1.0, np.sqrt(8.0 / n))   # keeps the non-separable part comparable to the diagonal for every n
         A = (np.diag(1.0 + rng.random(n)) + V @ V.T) * (1 + np.abs(r * dx)).max()
         A = A / np.outer(dx, dx)
         f0 = dict(kind='quadfull', A=A.tolist(), t=(xstar - np.linalg.solve(A, r)).tolist(), r=float(rng.normal()))
@@ -115,6 +115,35 @@ def replay(spec, conv=None, second_maxit=None, prior=0):
             "for b in bad[:5]:\n    print(b)\nassert not bad, bad[0][0]\n")
 
 
+class StopCheck(Exception):
+    pass
+
+
+def stoppable(fn):
+    """a check stops after 3 failing cases (broken solvers make every further run very slow; the first failures carry the replay)"""
+    import functools
+
+    @functools.wraps(fn)
+    def wrapped(r, tier, seed):
+        r.failed_cases = 0
+        try:
+            fn(r, tier, seed)
+        except StopCheck:
+            pass
+    return wrapped
+
+
+STOPPED = []   # once one check was stopped, the following ones stop at their first failing case
+
+
+def tally(r, ok):
+    if not ok:
+        r.failed_cases = getattr(r, 'failed_cases', 0) + 1
+        if r.failed_cases >= (1 if STOPPED else 3):
+            STOPPED.append(1)
+            raise StopCheck()
+
+
 def report(r, key, spec, conv=None, second_maxit=None, prior=0, tr=None, finding=None):
     tr = L.run(spec, second_maxit=second_maxit, prior=prior) if tr is None else tr
     bad = L.audit(spec, tr, conv=conv)
@@ -125,6 +154,7 @@ def report(r, key, spec, conv=None, second_maxit=None, prior=0, tr=None, finding
             continue
         seen.add(clause)
         r.check(False, clause, dict(case=key, witness=wit), replay_code=replay(spec, conv, second_maxit, prior), finding=finding)
+    tally(r, not bad or bool(finding))
     return tr, bad
 
 
@@ -147,6 +177,7 @@ def _container(bmode, mmode, layout, k):
        'bound modes omitted(defaults)/scalar/per-signal/per-variable/mixed, variables passed as list/tuple/single Signal, move modes omitted/ scalar/per-signal/per-variable, arrays and python lists, boxes [0,1], [-50,100], [-0.3,0.2] (ranges below 0.1: see small_range), '
        'start points with variables exactly on a bound; objective separable/non-separable quadratic, constraints linear/quadratic/reciprocal, some connected to a subset of the signals; '
        'every clause of the statement at every iteration (native/C10_lib.audit)')
+@stoppable
 def iterations(r, tier, seed):
     rng = np.random.default_rng(seed + 10)
     ns = (1, 2, 3, 5, 9) if tier == 'quick' else (1, 2, 3, 4, 5, 7, 9, 16, 30)
@@ -171,6 +202,7 @@ def iterations(r, tier, seed):
 
 @bound('14-iteration runs with move = 1 (so the asymptote interval limits the step): asyinit {0.3,0.5,1} x asyincr {1.2,1.5} x asydecr {0.7,0.5} x asybound {10,2} x albefa {0.1,0.4}, '
        'each with one of epsimin {1e-10,1e-7,1e-5}, cCoef {1e3,50}, c per constraint, a = 0 / 0.5, a0 {1,2}; n in {2,6} [quick] / {2,6,15} [thorough], m in {1,2}, both versions alternating')
+@stoppable
 def asymptote_parameters(r, tier, seed):
     rng = np.random.default_rng(seed + 11)
     k = 0
@@ -194,15 +226,16 @@ def asymptote_parameters(r, tier, seed):
             report(r, ('asy', n, asyinit, asyincr, asydecr, asybound, albefa), spec)
 
 
-@bound('45-iteration runs (tolx = 0) on strictly convex problems with optimum known by construction (interior and bound-active variables, 1..m active constraints): '
-       'n in {1,2,4,7,12} [quick] / + {20,40} [thorough], m in 1..3, 4 problem families, both versions; final max |x - x*|/(xmax-xmin) <= 1e-4, constraints <= 1e-7, '
+@bound('45-iteration runs (80 for n = 20; tolx = 0) on strictly convex problems with optimum known by construction (interior and bound-active variables, 1..m active constraints): '
+       'n in {1,2,4,7,12} [quick] / + {3,20} [thorough], m in 1..3, 4 problem families (non-separable part of the quadratic objective kept comparable to its diagonal), both versions; final max |x - x*|/(xmax-xmin) <= 1e-4, constraints <= 1e-7, '
        '|f - f*| <= 1e-5 max(1,|f*|) (observed on the unchanged code: <= 5e-7, 3e-12, 2e-8 after 40 iterations; floor 5e-8 from the barrier parameter)')
+@stoppable
 def convergence(r, tier, seed):
     rng = np.random.default_rng(seed + 12)
     conv = dict(xtol=1e-4, gtol=1e-7, ftol=1e-5)
     k = 0
     for rep in range(1 if tier == 'quick' else 3):
-        for n in ((1, 2, 4, 7, 12) if tier == 'quick' else (1, 2, 3, 4, 7, 12, 20, 40)):
+        for n in ((1, 2, 4, 7, 12) if tier == 'quick' else (1, 2, 3, 4, 7, 12, 20)):
             for m in (1, 2, 3):
                 for fam in range(2 if tier == 'quick' else 4):
                     k += 1
@@ -210,7 +243,7 @@ def convergence(r, tier, seed):
                     kw = dict(box=(0.1, 1.5)) if 'recip' in cons else dict(box=BOXES[k % 3])
                     if k % 6 == 0:   # compliance-like: reciprocal objective, positive linear constraints
                         obj, cons, kw = 'recip', ('lin',), dict(box=(0.05, 1.0), at_bound=0.0, p_neg=0.0)
-                    spec = gen(rng, layouts(n)[k % len(layouts(n))], m, obj=obj, cons=cons, bmode=BMODES[k % 4], mmode=MMODES[k % 3], opts=dict(maxit=45, tolx=0.0, mmaversion=VERSIONS[k % 2]),
+                    spec = gen(rng, layouts(n)[k % len(layouts(n))], m, obj=obj, cons=cons, bmode=BMODES[k % 4], mmode=MMODES[k % 3], opts=dict(maxit=(45 if n <= 12 else 80), tolx=0.0, mmaversion=VERSIONS[k % 2]),
                                partial=(k % 4 == 0), **kw)
                     report(r, ('conv', rep, n, m, fam), spec, conv=conv)
 
@@ -222,6 +255,7 @@ def _designs(tr):
 @bound('n in {3,6}, m in {1,2}, both versions: (a) MMA.response() called twice on one object (maxit 5, then raised to 11): all clauses over the joint history, iteration memory kept; '
        '(b) a fresh minimize_mma after 1 or 2 earlier complete runs on the same network/signals starts from the current states with fresh asymptotes; (c) the same problem run twice gives '
        'bitwise identical designs; (d) verbosity 1..4 gives bitwise the designs of verbosity 0; (e) stops on tolx / tolf leave the last evaluated design in the signals; (f) maxit = 1 and 2')
+@stoppable
 def histories(r, tier, seed):
     rng = np.random.default_rng(seed + 13)
     for n, m, ver in itertools.product((3, 6) if tier == 'quick' else (2, 3, 6, 11), (1, 2), VERSIONS):
@@ -256,6 +290,7 @@ def histories(r, tier, seed):
 
 @bound('xmin and xmax both given as python lists with one value per design variable, layouts [array(2), array(3)] and [scalar, array(3), array(1)], m = 1, 4 iterations; '
        'wrong-length bound / move vectors and an unknown version string must be rejected')
+@stoppable
 def list_bounds(r, tier, seed):
     rng = np.random.default_rng(seed + 14)
     for layout in ([('array', 2), ('array', 3)], [('scalar', 1), ('array', 3), ('array', 1)]):
@@ -281,6 +316,7 @@ def list_bounds(r, tier, seed):
 
 @bound('subproblems recorded from 4-iteration runs (n in {1,3,8}, m in {1,3}, both versions), solved again by calling subsolv directly with x0 = None, x0 = alfa, x0 = beta, '
        'x0 = the recorded start: optimality conditions (own formulas), agreement of the four solutions within 1e-6 of the interval width, arguments unchanged')
+@stoppable
 def subsolv_direct(r, tier, seed):
     import pymoto.common.mma as M
     rng = np.random.default_rng(seed + 15)
@@ -297,9 +333,16 @@ def subsolv_direct(r, tier, seed):
                 args = {k: (a[k].copy() if isinstance(a[k], np.ndarray) else a[k]) for k in names}
                 x0c = None if x0 is None else x0.copy()
                 import contextlib, io
-                with contextlib.redirect_stdout(io.StringIO()):
-                    ret = M.subsolv(a['epsimin'], *[args[k] for k in names], x0=x0)
-                code = (REPLAY_HEAD + _LIB_SRC + f"\n\nfrom numpy import array\na = {dict(args, epsimin=a['epsimin'])!r}\nx0 = {x0c!r}\n"
+                try:
+                    with contextlib.redirect_stdout(io.StringIO()):
+                        ret = L.timed(M.subsolv, a['epsimin'], *[args[k] for k in names], x0=x0)
+                except L._Abort:
+                    r.check(False, f'the subproblem solver returns a solution (none after {L.SOLVE_LIMIT} s)', dict(case=(n, m, ver, ci, label)))
+                    tally(r, False)
+                    continue
+                plain = {k: (v.tolist() if isinstance(v, np.ndarray) else v) for k, v in dict(args, epsimin=a['epsimin']).items()}
+                code = (REPLAY_HEAD + _LIB_SRC + f"\n\na = {{k: (np.array(v) if isinstance(v, list) else v) for k, v in {plain!r}.items()}}\nx0 = {None if x0c is None else x0c.tolist()!r}\n"
+                        "x0 = None if x0 is None else np.array(x0)\n"
                         "ret = _mma_mod.subsolv(a['epsimin'], *[a[k] for k in ('low', 'upp', 'alfa', 'beta', 'P', 'Q', 'a0', 'a', 'b', 'c', 'd')], x0=x0)\n"
                         "el = eps_last(a['epsimin'])\nres = kkt_residual(a, ret, el)\nprint(ret[0], abs(res).max(), el)\n"
                         "assert np.all(ret[0] > a['alfa']) and np.all(ret[0] < a['beta']) and abs(res).max() <= el\n")
@@ -312,10 +355,17 @@ def subsolv_direct(r, tier, seed):
                     r.check(np.max(np.abs(res)) <= el and all(np.all(np.asarray(v) > 0) for v in ret[1:]), 'optimality conditions to the requested accuracy, positive multipliers',
                             dict(case=(n, m, ver, ci, label), max_residual=float(np.max(np.abs(res))), allowed=el), replay_code=code)
                     sols[label] = ret[0].copy()
+                    tally(r, np.max(np.abs(res)) <= el)
+                tally(r, ok and unchanged)
             w = a['beta'] - a['alfa']
             for label, x in sols.items():
+                start = {'none': 'None', 'alfa': "a['alfa'].copy()", 'beta': "a['beta'].copy()", 'recorded': "a['x0'].copy()"}[label]
+                code = (REPLAY_HEAD + _LIB_SRC + f"\n\na = {{k: (np.array(v) if isinstance(v, list) else v) for k, v in {dict(plain, x0=a['x0'].tolist())!r}.items()}}\n"
+                        "nm = ('low', 'upp', 'alfa', 'beta', 'P', 'Q', 'a0', 'a', 'b', 'c', 'd')\n"
+                        f"x1 = _mma_mod.subsolv(a['epsimin'], *[a[k] for k in nm], x0={start})[0]\nx2 = _mma_mod.subsolv(a['epsimin'], *[a[k] for k in nm], x0=a['x0'].copy())[0]\n"
+                        "print(x1, x2)\nassert np.all(np.abs(x1 - x2) <= 1e-6 * (a['beta'] - a['alfa']))\n")
                 r.check(np.all(np.abs(x - sols.get('recorded', x)) <= 1e-6 * w), 'the solution does not depend on the starting point (unique optimum of the convex subproblem)',
-                        dict(case=(n, m, ver, ci, label), x=x, x_recorded=sols.get('recorded')))
+                        dict(case=(n, m, ver, ci, label), x=x, x_recorded=sols.get('recorded')), replay_code=code)
 
 
 # subproblem recorded at iteration 25 of minimize_mma on a 3-variable convex QP with xmin = 0, xmax = 0.01 (responses O(1)); design already at its optimum, two variables on xmin
@@ -330,8 +380,9 @@ CAP_WITNESS = {'epsimin': 2.23606797749979e-10, 'low': [0.007047079927207146, -0
                'x0': [0.007192891680772118, 2.133074143838078e-11, 5.721722703584416e-12]}
 
 
-@bound('design-variable ranges below 0.1: (a) one recorded subproblem (range 0.01, n = 3, m = 2) solved by subsolv directly; (b) [thorough] the complete 45-iteration run on the problem it was '
+@bound('design-variable ranges below 0.1: (a) one recorded subproblem (range 0.01, n = 3, m = 2) solved by subsolv directly; (b) [thorough] the complete 28-iteration run on the problem it was '
        'recorded from (fixed generator seed, independent of VERIF_SEED) with every clause audited', finding='C10-subsolv-cap')
+@stoppable
 def small_range(r, tier, seed):
     import contextlib, io
     import pymoto.common.mma as M
@@ -348,7 +399,8 @@ def small_range(r, tier, seed):
     r.check(np.max(np.abs(res)) <= el, 'subproblem solution satisfies the (barrier-relaxed) optimality conditions to the requested accuracy',
             dict(subproblem='CAP_WITNESS', x=ret[0], solver_messages=buf.getvalue().count('\n')), float(np.max(np.abs(res))), el, replay_code=code, finding='C10-subsolv-cap')
     if tier == 'thorough':
-        spec = gen(np.random.default_rng(0), [('array', 3)], 2, obj='quad', cons=('lin', 'quad'), box=(0.0, 0.01), opts=dict(maxit=45, tolx=0.0, mmaversion='Svanberg2007'))
+        spec = gen(np.random.default_rng(0), [('array', 3)], 2, obj='quad', cons=('lin', 'quad'), box=(0.0, 0.01), opts=dict(maxit=28, tolx=0.0, mmaversion='Svanberg2007'))
+        spec['cap_abort'] = 10 ** 9
         report(r, 'range-0.01-run', spec, conv=dict(xtol=1e-4, gtol=1e-7, ftol=1e-5), finding='C10-subsolv-cap')
 
 
